@@ -1396,6 +1396,8 @@ OBLIGATIONS = [
      "statement": "witness: a cached entry outlives a rewrite of its file until reload() (stale but once-inside bytes)"},
     {"id": "C20_A0", "theorem": "Iora.Assets.fromDirectory_inv", "kind": "proved",
      "statement": "fromDirectory returns canonical absolute roots (ordinary NUL-free names) and empty caches"},
+    {"id": "C20_total", "theorem": "Iora.C20.Model_walk_total", "kind": "proved",
+     "statement": "the model of stat/open/realpath never answers 'out of fuel' (walkFuel is always enough)"},
     {"id": "C20_Gen_flags", "theorem": "Iora.C20.Gen_open_flags", "kind": "gen-conformance", "statement": "readFile opens with O_RDONLY|O_NOFOLLOW|O_CLOEXEC"},
     {"id": "C20_Gen_filter", "theorem": "Iora.C20.Gen_filter", "kind": "gen-conformance", "statement": "forbidden bytes/segments of the lexical filter"},
     {"id": "C20_Gen_contained", "theorem": "Iora.C20.Gen_contained", "kind": "gen-conformance", "statement": "isContained compares the first element of rel with '..' using !="},
@@ -1404,12 +1406,11 @@ OBLIGATIONS = [
     {"id": "C20_Gen_roots", "theorem": "Iora.C20.Gen_roots", "kind": "gen-conformance", "statement": "static / templates / .gz"},
 ]
 LEANCHECK = ["IoraModel.Props.C20", "IoraModel.Lemmas.AssetsRoots", "IoraModel.Lemmas.AssetsHistory", "IoraModel.Lemmas.AssetsWc", "IoraModel.Lemmas.AssetsLookup",
-             "IoraModel.Lemmas.AssetsWalk", "IoraModel.Lemmas.AssetsPath", "IoraModel.Model.Assets", "IoraModel.Gen.Assets"]
+             "IoraModel.Lemmas.AssetsFuel", "IoraModel.Lemmas.AssetsWalk", "IoraModel.Lemmas.AssetsPath", "IoraModel.Model.Assets", "IoraModel.Gen.Assets"]
 NOT_PROVED = [
     "agreement of the model functions (kernel path walk, realpath, status, weakly_canonical, lexically_normal, lexically_relative, open(O_NOFOLLOW)) with libstdc++/glibc/Linux — partial by nature, checked by lockstep only",
     "A3_embedded for a relative / non-existent / trailing-slash EXTERNAL_DIR or one spelled with '..' (lockstep only)",
     "swaps of an INTERMEDIATE directory between resolution and open (the code's documented residual; A4 assumes directories stay directories)",
-    "sufficiency of walkFuel (the model's EFUEL outcome is never proved unreachable; lockstep would show it as a mismatch)",
 ]
 
 
